@@ -889,6 +889,10 @@ func init() {
 			closedICMP := err == nil && bytes.Equal(ct, probe)
 			fmt.Fprintf(w, "/-- Encrypt on an association / session that HAD a key and was closed returns its input (udp %v, icmp %v) -/\n", closedUDP, closedICMP)
 			fmt.Fprintf(w, "def closedUdpPassThrough : Bool := %s\ndef closedIcmpPassThrough : Bool := %s\n", b(closedUDP), b(closedICMP))
+			// the ingress under a replayed UDP_OPEN_ACK: does it re-key from its wiped private key?
+			_, _, _, pubN, uiErr := c04UIAck(1)
+			fmt.Fprintf(w, "/-- after the SAME UDP_OPEN_ACK is delivered twice the ingress seals under the key anybody can compute from an all-zero private key -/\n")
+			fmt.Fprintf(w, "def replayedAckRekeysPublic : Bool := %s\n", b(uiErr == nil && pubN > 0))
 			fmt.Fprintf(w, "end MM.Gen.C04\n")
 		},
 	})
